@@ -259,6 +259,20 @@ func c01PrimitivePairing(p *Program, r *Report) {
 					bad = fmt.Sprintf("%s writes  %s  {%s} but no path of %s reads that back: %s (reader paths: %s)", pr.w.Name(), byteString(w, true), describeAtoms(t.wstates[i]), pr.r.Name(), best, readerShapes(t))
 				}
 			}
+			if bad == "" {
+				// every reader path for bytes the writer can produce: one that stops after a length
+				// prefix must exclude every positive length (the writer does write content then)
+				wshapes := map[string]bool{}
+				for _, w := range t.wseqs {
+					wshapes[byteString(w, false)] = true
+				}
+				for j, rq := range t.rseqs {
+					if why := contentSkipped(rq, t.rstates[j], wshapes); why != "" {
+						bad = pr.r.Name() + ": " + why
+						break
+					}
+				}
+			}
 			if bad != "" {
 				r.Fail("primitive-pairing", key, pr.r.Pos(), "%s", bad)
 			} else {
@@ -394,6 +408,9 @@ func stripLayoutConsts(s string) string {
 	for i, t := range toks {
 		if k := strings.Index(t, "="); k > 0 && strings.HasPrefix(t, "be") {
 			toks[i] = t[:k]
+		}
+		if strings.HasSuffix(t, "<0") && strings.HasPrefix(t, "be") {
+			toks[i] = strings.TrimSuffix(t, "<0")
 		}
 	}
 	return strings.Join(toks, " ")
@@ -542,6 +559,33 @@ func primitiveLayout(p *Program, r *Report, rule string, floor int, only map[str
 		for a := range allowedShapes {
 			if !layoutCovered(a, rshapes, false) {
 				bad = fmt.Sprintf("the specification allows the layout  %s  for [%s] (spec/notations.grammar:%d) but no path of %s reads it (reader paths: %s)", a, pr.name, sp.line, pr.r.Name(), readerShapes(t))
+			}
+		}
+		// "any negative value" alternatives: some reader path of that shape accepts each sample
+		for _, a := range sp.alts {
+			if strings.Contains(a, "*(") {
+				continue // decided for the notation itself; composite notations reuse its reader
+			}
+			toks := strings.Fields(a)
+			for i, tk := range toks {
+				if !strings.HasSuffix(tk, "<0") {
+					continue
+				}
+				shape := stripLayoutConsts(a)
+				for _, k := range []int64{-1, -2, -128, -32768, -1 << 31} {
+					ok := false
+					for j, rq := range t.rseqs {
+						if byteString(rq, false) != shape || i >= len(rq) || rq[i].kind != "op" {
+							continue
+						}
+						if acc, _ := readerAccepts(t.rstates[j], binding{rq[i].id: constant.MakeInt64(k)}); acc {
+							ok = true
+						}
+					}
+					if !ok && bad == "" {
+						bad = fmt.Sprintf("the specification defines every negative length of [%s] as null (spec/notations.grammar:%d) but %s has no successful path that accepts the length %d without reading content", pr.name, sp.line, pr.r.Name(), k)
+					}
+				}
 			}
 		}
 		// reader ⊆ specification, except for the degenerate empty run: a reader path that consumes
